@@ -7,10 +7,10 @@ Definition frame (s s' : state) : Prop :=
   st_out s' = st_out s /\ st_sink s' = st_sink s /\ st_outs s' = st_outs s /\ st_ins s' = st_ins s /\
   st_fs s' = st_fs s /\ st_log s' = st_log s /\ st_obs s' = st_obs s.
 
-Lemma touch_frame E s n : frame s (touch E s n).
+Lemma touch_frame E s : frame s (touch E s).
 Proof.
   unfold touch, frame.
-  destruct (negb (is_osfile (e_mode E)) && any_cmd (st_outs s)); cbn [st_outs set_overlap];
+  destruct (negb (is_osfile (e_mode E)) && any_active (st_outs s)); cbn [st_outs set_overlap];
   match goal with |- context [if ?c then set_unmod _ else _] => destruct c end; cbn; repeat split; auto.
 Qed.
 
@@ -25,9 +25,9 @@ Lemma flush_stdout_good E s s' ok : good E s -> flush_stdout E s = (s', ok) ->
   st_log s' = st_log s /\ st_obs s' = st_obs s.
 Proof.
   intros Hg. unfold flush_stdout. destruct (e_mode E) eqn:Em; try (intros H; injection H as <- <-; auto 10).
-  pose proof (touch_frame E s 0%nat) as Hf. pose proof (good_frame E _ _ Hf Hg) as Hg'.
+  pose proof (touch_frame E s) as Hf. pose proof (good_frame E _ _ Hf Hg) as Hg'.
   destruct Hf as (F1 & F2 & F3 & F4 & F5 & F6 & F7).
-  set (s1 := touch E s 0%nat) in *. destruct Hg' as (Hl & He & Hc & Hx & Hn).
+  set (s1 := touch E s) in *. destruct Hg' as (Hl & He & Hc & Hx & Hn).
   destruct (bw_flush_nolimit _ _ Hl He) as (w' & k' & Ef & Hl' & He' & Hb' & Hd'). rewrite Ef.
   intros H; injection H as <- <-. cbn [st_outs st_fs st_ins st_log st_obs set_out].
   repeat split; auto.
@@ -52,9 +52,9 @@ Lemma write_stdout_good E s ps s' ok : good E s -> write_stdout E s ps = (s', ok
   good E s' /\ ok = true /\ st_outs s' = st_outs s.
 Proof.
   intros Hg. unfold write_stdout.
-  pose proof (touch_frame E s (length (concat ps))) as Hf. pose proof (good_frame E _ _ Hf Hg) as Hg'.
+  pose proof (touch_frame E s) as Hf. pose proof (good_frame E _ _ Hf Hg) as Hg'.
   destruct Hf as (F1 & F2 & F3 & F4 & F5 & F6 & F7).
-  set (s1 := touch E s (length (concat ps))) in *. destruct Hg' as (Hl & He & Hc & Hx & Hn).
+  set (s1 := touch E s) in *. destruct Hg' as (Hl & He & Hc & Hx & Hn).
   unfold nobuf in Hn.
   destruct (e_mode E) eqn:Em; cbn [st_out st_sink add_log].
   - destruct (write_pieces_direct_nolimit ps _ Hl) as (k' & Ew & Hl' & Hd'). rewrite Ew.
@@ -78,7 +78,7 @@ Proof.
     unfold good, out_content, nobuf. rewrite Em. cbn. rewrite Hx. unfold out_content. rewrite Hn, !app_nil_r. auto 10.
   - rewrite sink_write_nolimit by auto. intros H; injection H as <- <-.
     unfold good, out_content, nobuf. rewrite Em. cbn. rewrite Hx. unfold out_content. rewrite Hn, !app_nil_r. auto 10.
-  - destruct (bw_read_from_nolimit cap d _ _ Hl He) as (w' & k' & Ew & Hl' & He' & Hd').
+  - destruct (bw_write_nolimit cap d _ _ Hl He) as (w' & k' & Ew & Hl' & He' & Hd').
     match goal with |- context [if ?c then set_unmod ?x else ?x] => destruct c end; cbn [st_out st_sink add_log set_unmod]; rewrite Ew;
     intros H; injection H as <- <-; unfold good, out_content, nobuf; rewrite Em; cbn; rewrite Hx; unfold out_content;
     rewrite Hd', <- app_assoc; auto 10.
@@ -87,13 +87,7 @@ Qed.
 Lemma child_eof_good E s s' ok : good E s -> child_eof E s false = (s', ok) ->
   good E s' /\ ok = true /\ st_outs s' = st_outs s /\ st_fs s' = st_fs s /\ st_ins s' = st_ins s /\
   st_log s' = st_log s /\ st_obs s' = st_obs s.
-Proof.
-  intros Hg. unfold child_eof. destruct (e_mode E) eqn:Em; try (intros H; injection H as <- <-; auto 10).
-  destruct Hg as (Hl & He & Hc & Hx & Hn).
-  destruct (bw_read_from_nolimit cap [] _ _ Hl He) as (w' & k' & Ew & Hl' & He' & Hd'). rewrite Ew.
-  intros H; injection H as <- <-. unfold good, out_content, nobuf. rewrite Em. cbn. rewrite Hx. unfold out_content.
-  rewrite Hd', app_nil_r. auto 10.
-Qed.
+Proof. intros Hg. unfold child_eof. intros H; injection H as <- <-. auto 10. Qed.
 
 Lemma start_proc_good E s c s' cg : good E s -> start_proc E s c = (s', cg) ->
   good E s' /\ cg = false /\ st_outs s' = st_outs s /\ st_ins s' = st_ins s /\ st_obs s' = st_obs s.
@@ -254,7 +248,7 @@ Proof.
   revert Ef. unfold flush_stdout. destruct (e_mode E) eqn:Em.
   - intros H; injection H as <- <-. destruct Hg1 as (_ & _ & _ & _ & Hn). unfold nobuf in Hn. rewrite Em in Hn. auto.
   - intros H; injection H as <- <-. destruct Hg1 as (_ & _ & _ & _ & Hn). unfold nobuf in Hn. rewrite Em in Hn. auto.
-  - pose proof (good_frame E _ _ (touch_frame E s1 0%nat) Hg1) as (Hl & He & _).
+  - pose proof (good_frame E _ _ (touch_frame E s1) Hg1) as (Hl & He & _).
     destruct (bw_flush_nolimit _ _ Hl He) as (w' & k' & Ew & _ & _ & Hb & _). rewrite Ew.
     intros H; injection H as <- <-. cbn. auto.
 Qed.
@@ -335,9 +329,7 @@ Proof.
       destruct (close_ostream_good _ _ _ _ _ _ _ (good_aremove E s n Hg) (good_lookup _ _ _ _ Hg El) Ec) as (Hg1 & _).
       intros H; injection H as <- <-. apply good_add_obs.
       assert (Hg2 : good E (add_log s1 (EvClose n false code))) by (apply good_add_log; auto).
-      assert (Hg3 : good E (if err then print_errorf E (add_log s1 (EvClose n false code)) else add_log s1 (EvClose n false code)))
-        by (destruct err; auto; apply print_errorf_good; auto).
-      destruct (close_timing E n os s1); auto using good_set_unmod.
+      destruct err; auto. apply print_errorf_good; auto.
   - (* Fflush name *)
     destruct (alookup n (st_outs s)) as [os|] eqn:El; intros H; injection H as <- <-; apply good_add_obs.
     + eapply flush_named_good; eauto.
